@@ -84,6 +84,7 @@ def REQUIRED(tier):
         "case.dist.given": 50 * k,
         "assemble.order.ascending": 30 * k,
         "assemble.order.non-ascending": 20 * k,
+        "case.fragment-atoms-lent": 50 * k,
     }
 
 
@@ -1140,6 +1141,18 @@ def run_join_chunk(spec, ctx):
         jcls = rng.choice([Molecule, Molecule, Structure])
         A, B = build(sa, clsA, rng), build(sb, clsB, rng)
         iA, iB = sa["aps"][0], sb["aps"][0]
+        # the fragments' atoms may also be listed in another container (a constructor given atoms adopts them):
+        # what the atoms then report as their parent / index must not matter to join
+        lent = []
+        for frag, ap in ((A, iA), (B, iB)):
+            if rng.random() < 0.15:
+                from molli.chem import Promolecule
+                pick = [a for a in frag.atoms if a is frag.atoms[ap] or rng.random() < 0.5]
+                rng.shuffle(pick)
+                lent.append(Promolecule(pick))
+                ctx.count("case.fragment-atoms-lent")
+                if rng.random() < 0.3:
+                    lent.pop()
         form = rng.choice(["atom", "index", "label"])
         refA = {"atom": A.atoms[iA], "index": iA, "label": "AP"}[form]
         form2 = rng.choice(["atom", "index", "label"])
